@@ -858,6 +858,9 @@ pub fn run(ctx: &mut Ctx) {
 		if !ctx.owns("huge", i) {
 			continue;
 		}
+		if !ctx.replaying() && !ctx.time_left(0.74) {
+			break;
+		}
 		let mut r = Rng::for_case(ctx.seed, 506, i);
 		ctx.eval();
 		crate::monitors::set_current(ctx, "huge", i, "scheduling at a very large tick count", false);
@@ -881,6 +884,9 @@ pub fn run(ctx: &mut Ctx) {
 	for i in 0..n2c {
 		if !ctx.owns("twclock", i) {
 			continue;
+		}
+		if !ctx.replaying() && !ctx.time_left(0.78) {
+			break;
 		}
 		let mut r = Rng::for_case(ctx.seed, 507, i);
 		ctx.eval();
